@@ -11,7 +11,7 @@ enum Tk {
     Elapsed, // [h] [mm] [s]
 }
 
-const NTOK: usize = 44;
+const NTOK: usize = 49;
 const TOKLEN: usize = 7;
 /// (bytes, length, kind). Quoted / escaped / bracketed entries deliberately contain date letters.
 const TOKS: [([u8; TOKLEN], usize, Tk); NTOK] = [
@@ -59,6 +59,11 @@ const TOKS: [([u8; TOKLEN], usize, Tk); NTOK] = [
     (*b"YY     ", 2, Tk::Date),
     (*b"H      ", 1, Tk::Date),
     (*b"S      ", 1, Tk::Date),
+    (*b"\"a;b\"  ", 5, Tk::Neutral), // quoted literal containing the section separator
+    (*b"\\;     ", 2, Tk::Neutral),   // escaped section separator
+    (*b"\\\\     ", 2, Tk::Neutral),  // escaped backslash: the escape must not leak onto the next token
+    (*b"__     ", 2, Tk::Neutral),    // underscore escaping an underscore
+    (*b"\\_     ", 2, Tk::Neutral),   // backslash escaping an underscore
 ];
 
 /// N tokens chosen symbolically, concatenated; expected class from the token kinds:
@@ -135,7 +140,7 @@ fn c10_t_grammar_5() {
 #[kani::unwind(20)]
 fn c10_q_general() {
     let k: usize = kani::any();
-    kani::assume(k < 24); // neutral tokens only
+    kani::assume(k < 24); // neutral tokens only (the first 24 entries)
     let (bytes, l, _kind) = TOKS[k];
     let mut buf = [b' '; 14];
     let g = *b"General";
